@@ -230,6 +230,8 @@ type world struct {
 
 	handles map[string]*handle
 	pfronts map[string]*cs.FrontSession // pure layer, key "name#ord"
+	parked  map[string]*parkedH
+	relay   map[string]string
 
 	mu   sync.Mutex
 	recs map[int]*rec
@@ -360,8 +362,10 @@ func frontOf(s cs.IServerSession, nsName string) string {
 // runScript executes ops[i:] on session s; push/query continue in their
 // callbacks.  Every op is guarded: a panic of the code under test is the
 // observation "panic".
-func runScript(nsName string, s cs.IServerSession, ops []string, i int, r *rec, done func()) {
+func runScript(nsName string, get func() cs.IServerSession, ops []string, i int, r *rec, done func()) {
 	for ; i < len(ops); i++ {
+		// a handler re-reads its session from its context on every step (also when it resumes after a callback)
+		s := get()
 		f := strings.Split(ops[i], "/")
 		async := false
 		res := hx.Guard(func() string {
@@ -400,6 +404,12 @@ func runScript(nsName string, s cs.IServerSession, ops []string, i int, r *rec, 
 				}
 				w.handles[f[1]] = &handle{svc: nsName, bs: b}
 				return "ok"
+			case "pushnw": // PushSession(nil): not waited for, the handler goes on in the same turn
+				if nsName == "" {
+					return "nons"
+				}
+				s.PushSession(nil)
+				return "ok"
 			case "push", "query":
 				if nsName == "" {
 					return "nons"
@@ -417,7 +427,7 @@ func runScript(nsName string, s cs.IServerSession, ops []string, i int, r *rec, 
 					} else {
 						r.add("ok")
 					}
-					runScript(nsName, s, ops, idx+1, r, done)
+					runScript(nsName, get, ops, idx+1, r, done)
 				}
 				if f[0] == "push" {
 					s.PushSession(cb)
@@ -475,6 +485,18 @@ func runScript(nsName string, s cs.IServerSession, ops []string, i int, r *rec, 
 type zooArg struct {
 	Q int    `json:"q"`
 	S string `json:"s"`
+	P string `json:"p"` // park: run S, then suspend under this tag without answering
+}
+
+// parkedH is a suspended handler: it holds its CONTEXT (not the session) and its completion
+// function, like application code that resumes after a timer / nested request / posted closure.
+type parkedH struct {
+	svc   string
+	ctx   *impls.HandlerContext
+	cb    apientry.HandlerCBFunc
+	conn  string
+	mid   uint
+	front bool
 }
 type zooRet struct {
 	Q int `json:"q"`
@@ -510,7 +532,12 @@ func (e *ZooEntry) Run(ctx *impls.HandlerContext, a *zooArg, cb apientry.Handler
 	r.starts++
 	r.head = header(ctx, ns.Name)
 	r.mu.Unlock()
-	runScript(ns.Name, ctx.Session, split(a.S), 0, r, func() {
+	runScript(ns.Name, ctx.GetSession, split(a.S), 0, r, func() {
+		if a.P != "" {
+			_, isFront := ctx.GetSession().(*cs.FrontSession)
+			w.parked[a.P] = &parkedH{svc: ns.Name, ctx: ctx, cb: cb, front: isFront}
+			return
+		}
 		apientry.CheckInvokeCBFunc(cb, nil, &zooRet{Q: a.Q})
 	})
 }
@@ -525,7 +552,36 @@ func (e *ZooEntry) Tell(ctx *impls.HandlerContext, a *zooArg) {
 	r.starts++
 	r.head = header(ctx, ns.Name)
 	r.mu.Unlock()
-	runScript(ns.Name, ctx.Session, split(a.S), 0, r, nil)
+	runScript(ns.Name, ctx.GetSession, split(a.S), 0, r, nil)
+}
+
+// spy wraps the client session a FrontSession answers through: it records the connection's map at
+// the moment the front relays a response (everything pushed before the answer must already be there)
+type spy struct {
+	cs.IClientSession
+	fs    *cs.FrontSession
+	front string
+	key   string
+}
+
+func (s *spy) ResponseMID(mid uint, v interface{}, e error) error {
+	tok := w.jsonTok(s.front, s.fs.ToJson())
+	w.mu.Lock()
+	w.relay[s.key+":"+strconv.Itoa(int(mid))] = tok
+	w.mu.Unlock()
+	return s.IClientSession.ResponseMID(mid, v, e)
+}
+
+func (w *world) takeRelay(key string, mid uint) string {
+	w.mu.Lock()
+	defer w.mu.Unlock()
+	k := key + ":" + strconv.Itoa(int(mid))
+	v, ok := w.relay[k]
+	delete(w.relay, k)
+	if !ok {
+		return "MISSING"
+	}
+	return v
 }
 
 // stub client session for the pure layer's real NewFrontSession
@@ -609,7 +665,9 @@ func exec(op string) string {
 		w.setTopology(fullTopology)
 		w.handles = map[string]*handle{}
 		w.pfronts = map[string]*cs.FrontSession{}
+		w.parked = map[string]*parkedH{}
 		w.mu.Lock()
+		w.relay = map[string]string{}
 		w.recs = map[int]*rec{}
 		w.mu.Unlock()
 		return "ok"
@@ -629,7 +687,13 @@ func exec(op string) string {
 		if c.NetId() != w.realNet(f, w.nOpen[f]) {
 			w.h.Count("ASSUMPTION-BROKEN.netid-sequence")
 		}
-		w.conns[connKey(f, w.nOpen[f])] = c
+		key := connKey(f, w.nOpen[f])
+		w.conns[key] = c
+		n.RunOn(f, func(ns *service.NodeService) {
+			if fs := n.Sessions(f).GetSession(c.NetId()); fs != nil {
+				fs.Session = &spy{IClientSession: fs.Session, fs: fs, front: f, key: key}
+			}
+		})
 		return w.ordTok(f, float64(c.NetId()), false)
 
 	case "close":
@@ -666,15 +730,23 @@ func exec(op string) string {
 		delete(w.conns, key)
 		return "ok"
 
-	case "req":
-		c := w.conns[connKey(kv("f"), hx.KVInt(ws, "n"))]
+	case "req", "park":
+		tag := ""
+		if ws[0] == "park" {
+			tag = kv("t")
+			if tag == "" || hasKeep(kv("s")) || w.parked[tag] != nil {
+				return "bad-op"
+			}
+		}
+		ckey := connKey(kv("f"), hx.KVInt(ws, "n"))
+		c := w.conns[ckey]
 		if c == nil {
 			return "closed"
 		}
 		q, r := w.newRec()
 		defer w.dropRec(q)
-		arg, _ := json.Marshal(&zooArg{Q: q, S: kv("s")})
-		ntf := kv("ntf") == "1"
+		arg, _ := json.Marshal(&zooArg{Q: q, S: kv("s"), P: tag})
+		ntf := kv("ntf") == "1" && tag == ""
 		if ntf {
 			c.Notify(kv("svc")+".zoo.tell", arg)
 		} else {
@@ -699,7 +771,62 @@ func exec(op string) string {
 		if starts == 0 {
 			return "at=none resp=" + resp
 		}
-		return head + " r=" + r.render() + " resp=" + resp
+		if tag != "" {
+			if p := w.parked[tag]; p != nil {
+				p.conn, p.mid = ckey, uint(1+q%60000)
+				if resp == "none" {
+					resp = "parked"
+				}
+			}
+			return head + " r=" + r.render() + " resp=" + resp
+		}
+		relay := "-"
+		if resp == "ok" {
+			relay = w.takeRelay(ckey, uint(1+q%60000))
+		}
+		return head + " r=" + r.render() + " resp=" + resp + " relay=" + relay
+
+	case "resume":
+		p := w.parked[kv("t")]
+		if p == nil {
+			return "noparked"
+		}
+		delete(w.parked, kv("t"))
+		if hasKeep(kv("s")) {
+			return "bad-op"
+		}
+		c := w.conns[p.conn]
+		if p.front && c == nil {
+			return "closed"
+		}
+		_, r := w.newRec()
+		n.RunOn(p.svc, func(ns *service.NodeService) {
+			// the handler resumes: it re-reads its session from ITS context and finally answers
+			runScript(p.svc, p.ctx.GetSession, split(kv("s")), 0, r, func() {
+				apientry.CheckInvokeCBFunc(p.cb, nil, &zooRet{})
+			})
+		})
+		n.Wait()
+		if c == nil {
+			return "r=" + r.render() + " resp=gone relay=-"
+		}
+		resp := "none"
+		for _, m := range c.Take() {
+			if m.Kind == "response" && m.ID == p.mid {
+				if resp != "none" {
+					resp = "TWICE"
+				} else if m.Err {
+					resp = "err"
+				} else {
+					resp = "ok"
+				}
+			}
+		}
+		relay := "-"
+		if resp == "ok" {
+			relay = w.takeRelay(p.conn, p.mid)
+		}
+		return "r=" + r.render() + " resp=" + resp + " relay=" + relay
 
 	case "mk":
 		svc, h := kv("at"), kv("h")
@@ -723,7 +850,7 @@ func exec(op string) string {
 		}
 		_, r := w.newRec()
 		n.RunOn(h.svc, func(ns *service.NodeService) {
-			runScript(h.svc, h.bs, split(kv("s")), 0, r, nil)
+			runScript(h.svc, constSess(h.bs), split(kv("s")), 0, r, nil)
 		})
 		n.Wait()
 		return "r=" + r.render()
@@ -804,8 +931,14 @@ func runScriptPure(front string, s cs.IServerSession, ops []string, r *rec) {
 		pureFront = front
 		defer func() { pureFront = "" }()
 	}
-	runScript("", s, ops, 0, r, nil)
+	runScript("", constSess(s), ops, 0, r, nil)
 }
+
+func constSess(s cs.IServerSession) func() cs.IServerSession {
+	return func() cs.IServerSession { return s }
+}
+
+func hasKeep(script string) bool { return strings.Contains(script, "keep/") }
 
 var pureFront string
 
@@ -1315,7 +1448,8 @@ func TestRun(t *testing.T) {
 			{Name: "gate-1", Type: "gate", Front: true}, {Name: "gate-2", Type: "gate", Front: true},
 			{Name: "chat-1", Type: "chat"}, {Name: "chat-2", Type: "chat"}}})
 		w = &world{h: h, n: n, total: map[string]uint32{}, base: map[string]uint32{}, conns: map[string]*node.Client{},
-			nOpen: map[string]int{}, handles: map[string]*handle{}, pfronts: map[string]*cs.FrontSession{}, recs: map[int]*rec{}}
+			nOpen: map[string]int{}, handles: map[string]*handle{}, pfronts: map[string]*cs.FrontSession{}, recs: map[int]*rec{},
+			parked: map[string]*parkedH{}, relay: map[string]string{}}
 		run := func(op string) {
 			obs := exec(op)
 			h.Emit(op, obs)
